@@ -81,7 +81,6 @@ def run_cli(argv):
 
 def observe(kind, text, want_json, tmpdir, rnd, missing=False):
     entry = 'property' if kind == 'p' else 'specification'
-    direct, obj = call_parser(entry, text)
     argv = []
     if want_json:
         argv += ['-o', 'json']
@@ -93,9 +92,14 @@ def observe(kind, text, want_json, tmpdir, rnd, missing=False):
         if missing:
             readable = False
         else:
-            with open(path, 'w', encoding='utf-8') as f:
+            with open(path, 'w', encoding='utf-8', newline='') as f:
                 f.write(text)
+            # "the file parses": the text of the file as any text reader sees it (line ends \r\n and \r read as \n, a
+            # convention of text files, not of HPL)
+            with open(path, encoding='utf-8') as f:
+                text = f.read()
         argv.append(path)
+    direct, obj = call_parser(entry, text)
     if text.startswith('-') and kind == 'p':
         argv = argv[:-2] + ['-p', '--', text] if False else argv
     code, out, err = run_cli(argv)
@@ -148,6 +152,12 @@ def run(replay=None):
              '', '# foo: "x"\nglobally: no a', 'globally: no a {x = @Z.x}\nglobally: some b']
     for _ in range(60 if thorough else 20):
         files.append('\n'.join(rnd.sample(props, rnd.randrange(1, 4))))
+    # files with characters that are neither ordinary text nor HPL white space everywhere (inside strings: content; between
+    # tokens: white space or illegal), and other line-end conventions: the tool must do what the file parser does with the text
+    from harness.checks.c18 import exotic_variants
+    for base in ('# title: "T 1"\nglobally: no a {s = "lit" and x > 0}', '# id: p1\n# description: "d 1"\nafter b: some c {x > 0} within 1 s\nglobally: no d'):
+        files.extend(exotic_variants(base)[:: 1 if thorough else 2])
+    files += ['globally: no a\r\nglobally: no b\r\n', 'globally: no a\rglobally: no b', '\ufeffglobally: no a', 'globally: no a {s = "x\r\ny"}']
     tmpdir = tempfile.mkdtemp(prefix='c19-', dir=tlc.BUILD if os.path.isdir(tlc.BUILD) else None)
     events, info = [], {}
     try:
